@@ -34,13 +34,15 @@ def parseDelLine (w : String) : Option DelLine :=
 
 def parseBlock (w : List String) : Option Block :=
   match w with
-  | ["def", k, n, m, id, eq] => do
+  | "def" :: k :: n :: m :: id :: eq :: refs => do
     let kk ← parseKind k; let n ← n.toInt?; let m ← m.toInt?; let id ← id.toNat?
     let e ← (if eq == "-" then some none else eq.toInt?.map some)
-    pure (.define kk n m id e)
-  | ["raw", k, n, m, id, nd] => do
+    let rs ← refs.mapM String.toInt?
+    pure (.define kk n m id e rs)
+  | "raw" :: k :: n :: m :: id :: nd :: refs => do
     let kk ← parseKind k; let n ← n.toInt?; let m ← m.toInt?; let id ← id.toNat?
-    pure (.raw kk n m id (nd != "0"))
+    let rs ← refs.mapM String.toInt?
+    pure (.raw kk n m id (nd != "0") rs)
   | ["mod", k, n, m, id] => do
     let kk ← parseKind k; let n ← n.toInt?; let m ← m.toInt?; let id ← id.toNat?
     pure (.modify kk n m id)
